@@ -4,7 +4,7 @@ from fractions import Fraction as Fr
 
 from ..nf import Rat, C
 from ..source import Unsupported, AnchorError, params
-from ..xlate import Interp, Obj, ListV, DictV, Raised, RankOrder
+from ..xlate import Interp, Obj, ListV, DictV, Raised, RankOrder, _RaisedExc
 from .common import same, show
 from .rxnfix import get_public
 
@@ -49,13 +49,12 @@ PROBES = (12, 39)
 def _attr(I, o, name):
     """the documented attribute ``name`` of a model as a user reads it: the stored value, or the value of the class's
     property of that name; None when the model has neither"""
-    if not isinstance(o, Obj):
+    if not isinstance(o, Obj) or o.ci is None:
         return None
-    if name in o.attrs:
-        return o.attrs[name]
-    if o.ci is not None and I.repo.find_method(o.ci, name, missing_ok=True):
-        return get_public(I, o, name)
-    return None
+    try:
+        return get_public(I, o, name)       # Python's lookup order: property, instance attribute, class attribute
+    except _RaisedExc:
+        return None                         # AttributeError
 
 
 def _kind(v):
@@ -699,6 +698,13 @@ _INIT = '        self._set_intercepts()\n        self.name = name'
 _MEMO = ('        if x not in self._pieces:\n            self._pieces[x] = np.argmax(x < np.array(self.intervals)) - 1\n'
          '        i = self._pieces[x]')
 _TWO_INSERTS = '        self.intervals.insert(i, interval)\n        self.slopes.insert(i, slope)\n'
+_SET_BODY = ('        self._intercepts = []\n        for i, (interval, slope) in enumerate(zip(self.intervals,\n'
+             '                                                  self.slopes)):\n            if i == 0:\n'
+             '                self._intercepts.append(0.)\n            else:\n'
+             '                # Calculate H value at interval\n                prev_intercept = self._intercepts[-1]\n'
+             '                prev_slope = self.slopes[i - 1]\n                H = prev_slope * interval + prev_intercept\n'
+             '                # Calculate intercept of new area of curve\n'
+             '                self._intercepts.append(H - slope * interval)\n')
 _DATACLASS = [
     (C_, 'import numpy as np\n', 'from dataclasses import dataclass\nfrom typing import List, Optional\n\nimport numpy as np\n'),
     (C_, 'class PiecewiseCovEffect(_ModelBase):', '@dataclass(eq=False, repr=False)\nclass PiecewiseCovEffect(_ModelBase):')]
@@ -808,6 +814,13 @@ MUTANTS = [
                 '            i = np.argmax(larger)\n',
                 '        if np.any(interval < existing for existing in self.intervals):\n'
                 '            i = np.argmax(interval < np.array(self.intervals))\n')]},
+    {'name': 'intercepts in an integer buffer made from integer literals', 'expect': ('TYPE.int-buffer', '_set_intercepts'),
+     'edits': [(C_, _SET_BODY,
+                '        intercepts = np.array([0] * len(self.slopes))\n        for i in range(1, len(intercepts)):\n'
+                '            interval = self.intervals[i]\n'
+                '            H = self.slopes[i - 1] * interval + intercepts[i - 1]\n'
+                '            intercepts[i] = H - self.slopes[i] * interval\n'
+                '        self._intercepts = intercepts.tolist()\n')]},
     {'name': 'constructor takes the slopes before the breakpoints', 'expect': ('', 'PiecewiseCovEffect'),
      'edits': [(C_, '    def __init__(self, name_i, name_j, intervals, slopes, name=None):',
                 '    def __init__(self, name_i, name_j, slopes, intervals, name=None):')]},
@@ -829,8 +842,6 @@ MUTANTS = [
 #   A1 'insert leaves tuples behind (columns of zip(*pieces))', expect ('TYPE.container', 'PiecewiseCovEffect'):
 #      _TWO_INSERTS -> 'pieces = list(zip(self.intervals, self.slopes)); pieces.insert(i, (interval, slope));
 #      self.intervals, self.slopes = list(zip(*pieces))'                       (items of zip are not tuples yet)
-#   A2 'intercepts in an integer buffer made from integer literals', expect ('TYPE.int-buffer', '_set_intercepts'):
-#      'intercepts = np.array([0] * len(self.slopes))' + the recurrence storing into it + '.tolist()'
 #   A4 'evaluation by np.interp over the energies at the breakpoints', expect ('REF.', 'get_UoRT')
 EQUIV = [
     # white-box review, round 2 (behaviour-preserving: must stay silent)
@@ -869,6 +880,13 @@ EQUIV = [
                 '        pieces = sorted(zip(self.intervals + [interval], self.slopes + [slope]), key=lambda piece: piece[0])\n'
                 '        self.intervals[:] = [piece[0] for piece in pieces]\n'
                 '        self.slopes[:] = [piece[1] for piece in pieces]\n')]},
+    {'name': 'intercepts in a float buffer made from float literals',
+     'edits': [(C_, _SET_BODY,
+                '        intercepts = np.array([0.] * len(self.slopes))\n        for i in range(1, len(intercepts)):\n'
+                '            interval = self.intervals[i]\n'
+                '            H = self.slopes[i - 1] * interval + intercepts[i - 1]\n'
+                '            intercepts[i] = H - self.slopes[i] * interval\n'
+                '        self._intercepts = intercepts.tolist()\n')]},
     {'name': 'default temperature resolved in the body',
      'edits': [(C_, "    def get_UoRT(self, x=0., T=c.T0('K')):", "    def get_UoRT(self, x=0., T=None):"),
                (C_, _LOOK, "        if T is None:\n            T = c.T0('K')\n" + _LOOK)]},
